@@ -105,7 +105,7 @@ func (check typecheck) addressExpr(n *node) error {
 			continue
 		case indexExpr, sliceExpr:
 			c := c0.child[0]
-			if isArray(c.typ) || isMap(c.typ) {
+			if isArray(c.typ) {
 				c0 = c
 				found = true
 				continue
